@@ -211,6 +211,14 @@ def caller_maps_ok(ci: int, mi: int, purge_first: bool) -> bool:
         twin = pickle.loads(pickle.dumps(c))
         _mutate(ns, MUTATIONS[mi])
         _mutate(cu, MUTATIONS[mi])
+
+        def _again():
+            try:
+                return sv.compile(pat, ns, custom=cu)
+            except Exception as e:
+                return type(e).__name__
+        # the same (now changed) dict objects passed again, before any other compile call
+        again = None if purge_first else _again()
         if purge_first:
             sv.purge()
         after = (repr(c.selectors), dict(c.namespaces) if c.namespaces is not None else None,
@@ -220,6 +228,18 @@ def caller_maps_ok(ci: int, mi: int, purge_first: bool) -> bool:
         ok = ok and before[1] == ns0 and before[2] == cu0
         fresh = sv.compile(pat, dict(ns0) if ns0 is not None else None, custom=dict(cu0) if cu0 is not None else None)
         ok = ok and fresh == c and hash(fresh) == hash(c)
+        def _reference():
+            try:
+                return sv.compile(pat, dict(ns) if ns is not None else None, custom=dict(cu) if cu is not None else None)
+            except Exception as e:
+                return type(e).__name__
+        if again is None:
+            again = _again()
+        sv.purge()
+        ref = _reference()
+        ok = ok and ((again == ref) if isinstance(ref, str) or isinstance(again, str) else
+                     (again == ref and again.namespaces == ref.namespaces and again.custom == ref.custom and
+                      repr(again.selectors) == repr(ref.selectors)))
     return ret(ok)
 
 
